@@ -10,6 +10,7 @@ import (
 	"os"
 	"os/exec"
 	"path/filepath"
+	"strings"
 	"sync"
 	"sync/atomic"
 
@@ -259,6 +260,36 @@ func C09(r *Run) {
 		}(i)
 	}
 	wg.Wait()
+	// (4) the other tools, repeated in fresh processes on fixed inputs chosen so that an
+	// order taken from a Go map would show: lists with common entries in opposite orders,
+	// several inputs, maps with a dozen keys
+	{
+		wide := map[string]any{}
+		for k := 0; k < 12; k++ {
+			wide[fmt.Sprintf("k%02d", k)] = map[string]any{"v": k, "req": "$required"}
+		}
+		a := map[string]any{"ports": []any{1, 2, 3, 4, 5}, "wide": wide, "name": "a", "tags": []any{"x", "y", "z"}}
+		b := map[string]any{"ports": []any{5, 4, 3, 2, 1}, "wide": wide, "name": "b", "tags": []any{"z", "x"}}
+		c := map[string]any{"ports": []any{3, 1, 5}, "wide": wide, "name": "c", "tags": []any{"y", "z", "x"}}
+		d := filepath.Join(r.Dir, "tooldet")
+		os.MkdirAll(d, 0o755)
+		for nm, v := range map[string]any{"a.yaml": a, "b.json": b, "c.yaml": c} {
+			bs, _ := fsx.Encode(fsx.Ext(nm), toTagged([]any{v}))
+			os.WriteFile(filepath.Join(d, nm), bs, 0o644)
+		}
+		var evs [][]byte
+		for ti, argv := range [][]string{{"bkli", "-f", "json", "a.yaml", "b.json"}, {"bkli", "-f", "yaml", "a.yaml", "b.json", "c.yaml"},
+			{"bkli", "-f", "json", "c.yaml", "a.yaml", "b.json"}, {"bkld", "-f", "json", "a.yaml", "b.json"}, {"bkld", "-f", "yaml", "b.json", "c.yaml"},
+			{"bklr", "-f", "json", "a.yaml"}, {"bklr", "-f", "yaml", "b.json"}} {
+			for k := 0; k < 8; k++ {
+				res := fsx.Run(d, append([]string{filepath.Join(binDir(), argv[0])}, argv[1:]...), nil, nil, procTimeout, false)
+				evs = append(evs, J(map[string]any{"ev": "Repeat", "key": fmt.Sprintf("tool%d/%s", ti, strings.Join(argv, " ")), "ok": res.Exit == 0,
+					"sha": sha(res.Stdout), "mode": "fresh process (" + argv[0] + ")"}))
+			}
+		}
+		sessions = append(sessions, Sess{Lines: evs})
+		os.RemoveAll(d)
+	}
 	r.Logf("process runs done")
 	st := modelStats{}
 	res := r.Validate("C09", sessions, nil)
@@ -278,7 +309,7 @@ func C09(r *Run) {
 	r.Cov["runs_fresh_processes"] = 6 * min(np, n)
 	r.Cov["evaluations"] = n
 	r.Cov["distinct_nontrivial"] = n
-	r.Cov["rule"] = "inputs: wide maps through tolist/values, computed keys colliding with literal siblings, many outputs, named repeat products, self-containing root merges, generated directive-laden streams; each evaluated once against the specification, 5x in this process, from 16 goroutines in a race-detector build, and 3x2 in fresh processes; TLC checks that every run repeats the first one (status and bytes)"
+	r.Cov["rule"] = "inputs: wide maps through tolist/values, computed keys colliding with literal siblings, many outputs, named repeat products, self-containing root merges, generated directive-laden streams; each evaluated once against the specification, 5x in this process, from 16 goroutines in a race-detector build, and 3x2 in fresh processes; bkli / bkld / bklr 8x each in fresh processes on inputs with opposite list orders; TLC checks that every run repeats the first one (status and bytes)"
 	r.Cov["checker_cmd"] = first(res.Cmds)
 }
 
